@@ -220,7 +220,7 @@ theorem stepDec_drawing_proto {src : Bytes} {its : List Item} {m' : DMode} {rest
     (h : Dec.stepDec .drawing src = (its, .ok (m', rest))) :
     (m' = .drawing ∧ ∀ c ∈ callsOf its, IsDrawing c) ∨ (m' = .styling ∧ callsOf its = [.closeEnd]) := by
   change decodeDrawing src = _ at h
-  have one : ∀ {c : Call F32} {d : DrawOp}, drawOpOf c = some d → d ≠ .Z → callsOf its = [c] →
+  have one : ∀ {c : Call F32} {d : Enc.DrawOp}, drawOpOf c = some d → d ≠ .Z → callsOf its = [c] →
       ∀ c' ∈ callsOf its, IsDrawing c' := by
     intro c d h1 h2 h3 c' hc'
     rw [h3] at hc'
@@ -317,7 +317,7 @@ theorem run_proto (m : DMode) (src : Bytes) :
   · intro m src its m' rest hs ih h
     obtain ⟨e, he⟩ := ih h
     refine ⟨e, ?_⟩
-    rw [callsOf_append]
+    rw [DecL.callsOf_append]
     cases m with
     | styling =>
       obtain ⟨c, hc, hcase⟩ := stepDec_styling_proto hs
@@ -331,7 +331,7 @@ theorem run_proto (m : DMode) (src : Bytes) :
       · exact proto_drawing_append _ _ e hd he
       · rw [hc]
         simp only [List.cons_append, List.nil_append, inPathOf, Proto]
-        exact .inr ⟨rfl, he⟩
+        exact .inr ⟨trivial, he⟩
 
 theorem loop_proto (fuel : Nat) (m : DMode) (src : Bytes) (its : List Item)
     (h : Dec.loop fuel m src = (its, none)) (hf : src.length < fuel) :
@@ -379,7 +379,7 @@ theorem chunk_viewBoxAccepted {m0 m' : Metadata} {mn : Nat} {s : Bytes} {i : Lis
   obtain ⟨_, _, q1, q2, q3, q4, q5, q6, _, _, _, _, _, _, _, _, h4⟩ := hc.viewBox_spec
   exact .inr ⟨q1, q2, q3, q4, q5, q6, decodeCoordinates_outputs 4 h4⟩
 
-theorem MetaOk.viewBoxAccepted {src : Bytes} {hdr : List Item} {m : Metadata} {src3 : Bytes}
+theorem metaOk_viewBoxAccepted {src : Bytes} {hdr : List Item} {m : Metadata} {src3 : Bytes}
     (h : MetaOk {} src hdr m src3) : ViewBoxAccepted m.viewBox := by
   obtain ⟨l0, l1, its, src2, rfl, hs⟩ := h.chunks
   rcases hs with ⟨rfl, _⟩ | ⟨mm', hc⟩ | ⟨its1, m1, r1, its2, hc1, hc2, _⟩
@@ -405,7 +405,7 @@ theorem decode_accepted_shape (bs : Bytes) (cs : List (Call F32)) (h : Dec.decod
     simp only [Prod.mk.injEq] at h
     obtain ⟨rfl, hr⟩ := h
     obtain ⟨e, he⟩ := run_proto .styling src3 hr
-    exact ⟨m.viewBox, m.palette, _, e, rfl, he, palValid_toList (hm.palValid []), hm.viewBoxAccepted⟩
+    exact ⟨m.viewBox, m.palette, _, e, rfl, he, palValid_toList (hm.palValid []), metaOk_viewBoxAccepted hm⟩
   · obtain ⟨e, he⟩ := decode_of_not_metaOk hm []
     rw [he] at h
     simp at h
